@@ -324,7 +324,17 @@ class StreamIO:
             transport = self.writer.transport
             if transport.get_write_buffer_size():
                 loop = asyncio.get_running_loop()
-                loop.call_later(self.write_timeout, transport.abort)
+                loop.call_later(
+                    self.write_timeout,
+                    self._abort_unsent,
+                    transport,
+                )
+
+    @staticmethod
+    def _abort_unsent(transport):
+        # transport which flushed meanwhile is closed (or closes) on its own
+        if transport.get_write_buffer_size():
+            transport.abort()
 
 
 class Throttle:
